@@ -8,6 +8,7 @@ require (
 	github.com/GuanceCloud/platypus v0.0.0
 	github.com/antchfx/xmlquery v1.3.12
 	github.com/antchfx/xpath v1.2.1
+	github.com/araddon/dateparse v0.0.0-20201001162425-8aadafed4dc4
 	github.com/influxdata/influxdb1-client v0.0.0-20220302092344-a9ab5670611c
 	github.com/spf13/cast v1.5.0
 	go.uber.org/zap v1.23.0
@@ -15,7 +16,6 @@ require (
 
 require (
 	github.com/DataDog/datadog-go/v5 v5.1.0 // indirect
-	github.com/araddon/dateparse v0.0.0-20201001162425-8aadafed4dc4 // indirect
 	github.com/cespare/xxhash/v2 v2.1.1 // indirect
 	github.com/dgraph-io/ristretto v0.1.0 // indirect
 	github.com/dustin/go-humanize v1.0.0 // indirect
